@@ -134,7 +134,7 @@ class SessionModel:
                     self.data = True
                 # a second connection while one is unused is closed by the server; state unchanged
             return Expect([])
-        s = line.rstrip()
+        s = line.rstrip(" \t\r\n")          # the line end and blanks before it - nothing else
         cmd, _, arg = s.partition(" ")
         # (only the 26 ascii letters have a second spelling: a verb with the kelvin sign in it is another verb)
         verb = cmd.lower() if cmd.isascii() else cmd
